@@ -175,7 +175,10 @@ def H3(ctx):
     if ifn is not None:
         ps = panic_sites(prog, ik, "already init")
         iinst = prog.ident(ik)
-        ins = [b for (b, t, c) in prog.sites(iinst) if prog.callee_key(c).endswith("::or_insert")]
+        # the value is stored through the looked-up entry: `entry.or_insert(v)` or `VacantEntry::insert(v)` in the Vacant arm
+        ins = [b for (b, t, c) in prog.sites(iinst) if prog.callee_key(c).endswith("::or_insert") or
+               (prog.callee_key(c).endswith("VacantEntry::<K, V, A>::insert") or prog.callee_key(c).endswith("VacantEntry::<'a, K, V, A>::insert")
+                or ("VacantEntry" in prog.callee_key(c) and prog.callee_key(c).endswith("::insert")))]
         # the refusal depends on the looked-up entry (if-let, match or matches! form)
         occ = False
         for b in range(ifn.body.n):
